@@ -68,8 +68,8 @@ extern "C" int LLVMFuzzerTestOneInput(const uint8_t *data, size_t size) {
     if (4 + (uint64_t)hw * 4 > o.file.size()) fz::oracleFail("header word larger than the file");
     if ((fz::hash(data, size) & 3) == 0) {
       fz::g.detChecks++;
-      fillnew::set(0x00); Outcome a = assembleOnce(text);
-      fillnew::set(0xA5); Outcome b = assembleOnce(text);
+      fillnew::set(0x00); fillnew::poisonStack(0x00); Outcome a = assembleOnce(text);
+      fillnew::set(0xA5); fillnew::poisonStack(0xA5); Outcome b = assembleOnce(text);
       fillnew::set(-1);
       if (a.threw != b.threw || a.file != b.file || a.listing != b.listing) fz::oracleFail("output depends on the contents of fresh heap memory (use of an uninitialised value)");
     }
